@@ -1784,7 +1784,7 @@ theorem graphEdges_rename (f : κ → κ') (hf : Injective f) (g : ResGraph κ) 
         rw [hp]
         rfl
       rw [hkey, hstep]
-      exact ih _
+      exact ih (n.key :: acc.1, acc.2 ++ ((g.neighbors n.key).filter (fun v => v ∉ acc.1)).map (fun v => (n.key, v)))
   have := key g.nodes ([], [])
   simp only [List.map_nil] at this
   simp only [renameGraph] at this ⊢
